@@ -461,12 +461,26 @@ fn resolve(op: &SOp, held: &[Block], cfg: &Config, my_offline: Option<usize>, re
             class,
             slot,
             target,
-        } => Some(Call::Get {
-            target: *target,
-            order: *order,
-            class: *class,
-            slot: *slot,
-        }),
+        } => {
+            // HELD_TARGET + k: ask by number for (the start of) the k-th block this thread holds,
+            // i.e. for frames that are allocated: the call must fail and change nothing
+            let (target, order) = match target {
+                Some(t) if *t >= HELD_TARGET => {
+                    if held.is_empty() {
+                        return None;
+                    }
+                    let b = held[(t - HELD_TARGET) % held.len()];
+                    (Some(b.frame), (*order).min(b.order))
+                }
+                t => (*t, *order),
+            };
+            Some(Call::Get {
+                target,
+                order,
+                class: *class,
+                slot: *slot,
+            })
+        }
         SOp::PutHeld {
             k,
             sub,
@@ -1112,6 +1126,55 @@ impl ConcRunner<'_> {
                             break;
                         }
                         _ => {}
+                    }
+                }
+                // small allocators: take base frames until out-of-memory; every frame the model
+                // has free outside offline trees must have been handed out by then
+                // (expensive, so only when a cheap look at the tree array shows a tree whose counter
+                // is below the number of frames the lower level has free in it - the way frames
+                // become unreachable; the verdict itself comes from the allocations alone)
+                let suspicious = masked(|| {
+                    guarded(|| {
+                        let snap = tree_snapshot(&alloc, cfg.trees());
+                        (0..cfg.trees()).any(|t| {
+                            !model.offline.contains(&t)
+                                && snap[t].1 < llfree::Alloc::stats_at(&alloc, llfree::FrameId(t * TREE_FRAMES), TREE_ORDER).free_frames
+                        })
+                    })
+                })
+                .unwrap_or(false);
+                if suspicious && cfg.frames <= 4 * TREE_FRAMES && j.out.is_empty() {
+                    let mut got = 0usize;
+                    let want = model.online_free();
+                    let probe = Call::Get { target: None, order: 0, class: 0, slot: None };
+                    while got <= want {
+                        match exec(&alloc, &probe) {
+                            Outcome::GetOk { frame, .. } => {
+                                if !model.get_allowed(&Block::new(frame, 0)) {
+                                    j.report(Violation::new(
+                                        "C01",
+                                        "final-probe-overlap",
+                                        format!("after the concurrent run: {probe:?} returned frame {frame}, which is held"),
+                                    ));
+                                    break;
+                                }
+                                model.apply_get(&Block::new(frame, 0));
+                                got += 1;
+                            }
+                            Outcome::Err(_) => break,
+                            _ => {
+                                got = want;
+                                break;
+                            }
+                        }
+                    }
+                    res.stats.final_probes += 1;
+                    if got < want {
+                        j.report(Violation::new(
+                            "C10",
+                            "oom-after-drain-with-free-frames",
+                            format!("after the concurrent run: drain, then base-order allocations until out-of-memory handed out {got} frames, {want} were free"),
+                        ));
                     }
                 }
             }
@@ -1768,7 +1831,56 @@ pub fn gen_case(rng: &mut Rng, kind: &str, o: &GenOpts) -> ConcCase {
                 }
                 pairs.push((class, slot));
             }
-            if rng.chance(1, 2) {
+            if rng.chance(1, 4) {
+                // directed variant "undo race": the slot holds a reservation and a block of its
+                // tree is held by a thread, which asks for that (allocated) block by number
+                // through the slot: the local counter is decremented, the lower allocation
+                // fails, and the decrement has to be undone - while another thread drains or
+                // replaces the reservation
+                n = 3;
+                directed = true;
+                programs = vec![Vec::new(); 3];
+                setup.clear();
+                let (class, slot) = pairs[0];
+                let order = *rng.pick(&[0usize, 0, 1, 3]);
+                setup.push(Call::Get {
+                    target: None,
+                    order,
+                    class,
+                    slot: Some(slot),
+                });
+                let first = rng.below(3);
+                deals.push(Deal {
+                    k: 0,
+                    order: 99,
+                    parts: vec![(0, first)],
+                });
+                programs[first].push(SOp::Get {
+                    order,
+                    class,
+                    slot: Some(slot),
+                    target: Some(HELD_TARGET),
+                });
+                programs[(first + 1) % 3].push(if rng.chance(1, 2) {
+                    SOp::Drain
+                } else {
+                    // uses up / replaces the reservation of the same slot
+                    SOp::Get {
+                        order: *rng.pick(&[9usize, 10, 11]),
+                        class,
+                        slot: Some(slot),
+                        target: None,
+                    }
+                });
+                if rng.chance(1, 2) {
+                    programs[(first + 2) % 3].push(SOp::Get {
+                        order: *rng.pick(&[0usize, 3]),
+                        class,
+                        slot: Some(slot),
+                        target: None,
+                    });
+                }
+            } else if rng.chance(1, 2) {
                 // directed variant: one thread drains, one asks for the reserved tree to go
                 // offline, one allocates through the slot - each with little else to do
                 n = 3;
@@ -2123,6 +2235,8 @@ pub const KE_SHARDS: u64 = 64;
 pub const PUT_LAST: usize = 1 << 40;
 /// `SOp::Offline { tree: OFFLINE_RESERVED + k }`: the k-th tree reserved when the threads start
 pub const OFFLINE_RESERVED: usize = 1000;
+/// `SOp::Get { target: Some(HELD_TARGET + k) }`: targeted request for the k-th block the thread holds
+pub const HELD_TARGET: usize = 1 << 41;
 
 #[derive(Default)]
 pub struct Evolve {
